@@ -4,6 +4,7 @@ CONSTANTS
   DEV_PartialIntersection = FALSE
   DEV_PartialNetwork = FALSE
   DEV_AddNetOnNonEmpty = TRUE
+  DEV_HangingFreesNamedIds = FALSE
   MaxGen = 0
   Universe = {"LA","LB","LC","LD","SA","SB","TA","XA","XB","OS","OD","OP","OE","NA","NB","NC"}
 VIEW View
